@@ -3,11 +3,13 @@ import QmcProofs.LawRefresh
 import QmcProofs.LawRand
 import QmcProofs.LawHeatBath
 import QmcProofs.LawGood
+import QmcProofs.LawCluster
+import QmcProofs.LawTimestep
 
 /-!
 # Law — the law of the executable model IS the kernel of `KernelInvariance`
 
-Headline theorems only (helpers: `QmcModel/ProbTree.lean`, `QmcProofs/Law{Tree,Rand,Slot,Sweep,Refresh,HeatBath,Good}.lean`;
+Headline theorems only (helpers: `QmcModel/ProbTree.lean`, `QmcProofs/Law{Tree,Rand,Slot,Sweep,Refresh,HeatBath,Good,Cluster,Timestep}.lean`;
 notes: `design_notes/Law.md`).  Closes items 1 and 3 of "Assumed rather than derived" of
 `design_notes/KernelInvariance.md` for the Metropolis diagonal update and the free-spin refresh.
 
@@ -16,8 +18,9 @@ Three layers, each a theorem:
 1. **refinement** (`*_run`): the script-driven model function equals, on *every* script, the run of its
    tree twin — the same function with each RNG call reified as a tree node that calls the same `RS`
    primitive.  Equality of the result *and* of the whole RNG state (flags, margin, draw count).
-2. **idealisation** (`flip_weight_counting`, `flip_weight_frequency`): a `flip p` node has weight `p`; under a
-   uniform 64-bit word `gen_bool(p)` is `true` on exactly `⌊p·2^64⌋` words.
+2. **idealisation** (`flip_weight_counting`, `flip_weight_frequency`, `pick_weight_counting`): a `flip p` node has
+   weight `p`; under a uniform 64-bit word `gen_bool(p)` is `true` on exactly `⌊p·2^64⌋` words; `pick n` has
+   weight `1/n`; every outcome of `gen_range(0..n)` has exactly `2^lz` accepted words.
 3. **law = kernel** (`*_law_eq_kernel`) and the corollary **the idealised law of the executable model
    leaves the SSE weight invariant** (`metropolisSweep_law_invariant`).
 -/
@@ -51,6 +54,25 @@ theorem heatBathSlot_run (H : Ham) (bw : BW) (β : Rat) (L : Nat) (slot : Option
 theorem heatBathSweep_run (H : Ham) (bw : BW) (β : Rat) (cutoff : Nat) (c : Config) (rs : RS) :
     heatBathSweep H bw β cutoff c rs = (heatBathSweepT H bw β cutoff c).run rs :=
   heatBathSweep_refines H bw β cutoff c rs
+
+/-- the cluster update (`flip_each_cluster_rng`): one `flip (c_k · prob)` per cluster in traversal order -/
+theorem clusterUpdate_run (prob : Rat) (fr : SkOp → Bool) (c : Config) (rs : RS) :
+    clusterUpdate prob fr c rs =
+      (((clusterUpdateT prob fr c).run rs).1, (traverse (skeleton c.slots)).count,
+        ((clusterUpdateT prob fr c).run rs).2) :=
+  clusterUpdate_refines prob fr c rs
+
+/-- **one whole `timestep`** of the executable model (`Sampler.isingTimestep` = `QmcIsingGraph::timestep`,
+RVB off): diagonal update ; cluster update ; refresh ; cutoff rule -/
+theorem isingTimestep_run (s : Sampler.IsingSampler) (β : Rat) (rs : RS) :
+    Sampler.isingTimestep s β rs = (isingTimestepT s β).run rs :=
+  isingTimestep_refines s β rs
+
+/-- its configuration part is `stepCfgT` = sweep ; cluster update ; refresh -/
+theorem isingTimestep_cfg (s : Sampler.IsingSampler) (β : Rat) :
+    PT.map Sampler.IsingSampler.cfg (isingTimestepT s β) =
+      stepCfgT s.spec.ham s.table s.frozenBond β s.cutoff s.cfg :=
+  isingTimestepT_cfg s β
 
 /-- the free-spin refresh (tail of `timestep`, `flip_free_bits`) -/
 theorem freeRefresh_run (c : Config) (rs : RS) : Sampler.freeRefresh c rs = (freeRefreshT c).run rs :=
@@ -92,6 +114,13 @@ theorem fair_coin_exact :
     (((Finset.range RS.two64).filter (fun u => ((RS.ofScript [u]).genBool (1 / 2)).1 = true)).card : Rat) /
         ((RS.two64 : Nat) : Rat) = 1 / 2 :=
   genBool_half_count
+
+/-- `pick n` has weight `1/n` on each outcome; for every `i < n` exactly `2^lz` of the `2^64` equally likely
+words are accepted by `gen_range(0..n)` with outcome `i` — exact uniformity conditional on acceptance -/
+theorem pick_weight_counting (n : Nat) (hn : 0 < n) (hn64 : n < RS.two64) (i : Nat) (hi : i < n) :
+    ((Finset.range RS.two64).filter (fun u => ((RS.ofScript [u]).genRange n).2.short = false ∧
+      ((RS.ofScript [u]).genRange n).1 = i)).card = 2 ^ RS.lz64 n :=
+  genRange_uniform n hn hn64 i hi
 
 /-- **law of a sequential program = composition of the laws** (`Dist.comp`) -/
 theorem law_of_bind {α : Type} [DecidableEq α] (S : Finset α) (T₁ T₂ : α → PT α)
@@ -232,6 +261,75 @@ theorem heatBathSweep_law_invariant_cut (H : Ham) (β : Rat) (hβ : 0 < β)
       (lawK (cfgSpace H N L) (heatBathSweepT H (makeBondWeights H) β L)) :=
   Qmc.Law.heatBathSweep_law_invariant_cut H β hβ hW hw N L hH
 
+/-! ### cluster update and the whole step — PARTIAL in the hypothesis `TravOK` on the traversal -/
+
+/-- **the coins of the cluster update**: one `flip (w_r/2)` per listed cluster, union of the accepted ones
+flipped = independent choices over the clusters (`flipsK`), for pairwise disjoint clusters -/
+theorem cluster_coins_law (whole : Bool) (lab : Array Nat) (w : Nat → Rat) (hw : ∀ r, w r = 0 ∨ w r = 1)
+    (c' : Config) (reps : List Nat) (hd : RepsDisjoint whole lab reps) (c : Config)
+    (hs : ShapedSlots c.slots) (ht : TagCanon c.slots) :
+    PT.law (PT.map (fun fl => flipConfigT (flippedLegs whole lab reps fl) c)
+      (clusterFlipsT (1 / 2) (reps.map w))) c' =
+    flipsK (reps.map (fun r => (w r * (1 / 2), flipConfigT (clusterLegs whole lab r)))) c c' :=
+  law_clusterFlips whole lab w hw c' reps hd c hs ht
+
+/-- **cluster update: law = cluster kernel of the update's own family** (`ClusterFamily.ofModel`: the clusters
+of closure-weight 1 found by `traverse`, each a C09 `ClusterMove`), on a canonical-tag configuration of
+`cfgSpace` whose skeleton is `TravOK` (traversal not `bad`, representatives in different components —
+decidable, not proved in general) -/
+theorem clusterUpdate_law_eq_kernel_partial (fz : Nat → Bool) (H : Ham) (N L : Nat) (hV : VarsOK H N)
+    (c : Config) (hc : c ∈ cfgSpace H N L) (ht : TagCanon c.slots) (htr : TravOK (skeleton c.slots))
+    (c' : Config) :
+    PT.law (clusterKT (1 / 2) fz c) c' =
+      clusterK (ClusterFamily.ofModel (fun o => fz o.bond) H N L hV) c c' :=
+  law_clusterKT fz H N L hV c hc ht htr c'
+
+/-- the update's kernel is the component kernel `clusterK (ClusterFamily.ofComponents …)` of
+`Kernel.ising_timestep_invariant` wherever the flips the update offers are, up to order, the component flips
+(completeness of the traversal + agreement of the two notions of "frozen" on this skeleton) -/
+theorem clusterKernel_eq_components_partial (fr : SkOp → Bool) (H : Ham) (N L : Nat) (hV : VarsOK H N)
+    (c c' : Config) (hperm : (modelFlips fr (skeleton c.slots)).Perm (componentFlips fr (skeleton c.slots))) :
+    clusterK (ClusterFamily.ofModel fr H N L hV) c c' =
+      clusterK (ClusterFamily.ofComponents fr H N L hV) c c' :=
+  clusterK_ofModel_eq_ofComponents fr H N L hV c c' hperm
+
+/-- **law of one whole step = `sweepKM ; clusterK ; refreshK`** on the Good configurations -/
+theorem step_law_eq_kernels_partial (H : Ham) (β : Rat) (hβ : 0 ≤ β) (hw : ∀ b i, 0 ≤ H.w b i i)
+    (hNb : 0 < H.nbonds) (N L : Nat) (hV : VarsOK H N) (fz : Nat → Bool)
+    (hsym : ClusterSym H (fun o => fz o.bond) (cfgSpace H N L))
+    (htrav : ∀ c ∈ goodSpace H N L, TravOK (skeleton c.slots)) :
+    lawK (goodSpace H N L) (stepCfgT H none fz β L) =
+      compList [sweepKM H β (goodSpace H N L) L,
+        restr (goodSpace H N L) (clusterK (ClusterFamily.ofModel (fun o => fz o.bond) H N L hV)),
+        restr (goodSpace H N L) (refreshK N)] :=
+  lawK_stepCfgT_metropolis H β hβ hw hNb N L hV fz hsym htrav
+
+/-- **THE EXECUTABLE WHOLE-STEP MODEL HAS AN INVARIANT IDEALISED LAW** — `Sampler.isingTimestep`
+(`QmcIsingGraph::timestep`, RVB off, Metropolis diagonal update): for every valid graph, couplings of any
+sign, Γ ≥ 0, any h, β > 0, number of slots `L` (= cutoff), the law of its configuration part leaves the true
+SSE measure `configWeight · 1_{Consistent ∧ Legal}` invariant on `cfgSpace`.  Partial in `htrav` only. -/
+theorem isingStep_law_invariant_partial (s : Sampler.IsingSampler) (hv : s.spec.Valid)
+    (hg : 0 ≤ s.spec.gamma) (hNb : 0 < s.spec.ham.nbonds) (β : Rat) (hβ : 0 < β) (L : Nat)
+    (htrav : ∀ c ∈ goodSpace s.spec.ham s.spec.nvars L, TravOK (skeleton c.slots)) :
+    Invariant (sseCutOn s.spec.ham β (cfgSpace s.spec.ham s.spec.nvars L))
+      (lawK (cfgSpace s.spec.ham s.spec.nvars L) (stepCfgT s.spec.ham none s.frozenBond β L)) :=
+  Qmc.Law.isingStep_law_invariant_partial s hv hg hNb β hβ L htrav
+
+/-- … with the heat-bath diagonal update (`set_enable_heatbath(true)`: table `makeBondWeights`) -/
+theorem isingStep_law_invariant_partial_hb (s : Sampler.IsingSampler) (hv : s.spec.Valid)
+    (hg : 0 ≤ s.spec.gamma) (hW : 0 < (makeBondWeights s.spec.ham).sum) (β : Rat) (hβ : 0 < β) (L : Nat)
+    (htrav : ∀ c ∈ goodSpace s.spec.ham s.spec.nvars L, TravOK (skeleton c.slots)) :
+    Invariant (sseCutOn s.spec.ham β (cfgSpace s.spec.ham s.spec.nvars L))
+      (lawK (cfgSpace s.spec.ham s.spec.nvars L)
+        (stepCfgT s.spec.ham (some (makeBondWeights s.spec.ham)) s.frozenBond β L)) :=
+  Qmc.Law.isingStep_law_invariant_partial_hb s hv hg hW β hβ L htrav
+
+/-- `htrav` for a concrete Hamiltonian and number of slots: evaluate the traversal on the finitely many
+skeletons (`skEnum H L`) -/
+theorem htrav_of_enum (H : Ham) (N L : Nat) (h : ∀ sk ∈ skEnum H L, TravOK sk) :
+    ∀ c ∈ goodSpace H N L, TravOK (skeleton c.slots) :=
+  travOK_of_enum H N L h
+
 /-! ### non-vacuity: H = isingClusterHam [([0,1],1)] (1/2) (1/4) 3, β = 3/2, C09's `exB` -/
 
 namespace Example
@@ -308,6 +406,63 @@ example : PT.law (freeRefreshT Qmc.C09.exB) { Qmc.C09.exB with state := [false, 
   rw [PT.law_flip (by norm_num) (by norm_num)]
   simp
   norm_num
+
+/-! the cluster update and the whole step: `spec3` (edge (0,1), J = 1, Γ = 1/2, h = 1/4, three spins) -/
+
+/-- the traversal of the skeleton of `exB` is `TravOK` (evaluated by the kernel) -/
+theorem exB_travOK : TravOK (skeleton Qmc.C09.exB.slots) := by decide +kernel
+
+/-- … and so is the traversal of each of the 64 skeletons with two slots over `spec3.ham` -/
+theorem spec3_trav2 : ∀ sk ∈ skEnum Qmc.Refine.spec3.ham 2, TravOK sk := by decide +kernel
+
+/-- the cluster update on `exB`: law = kernel, nothing left to assume -/
+example (hV : VarsOK Qmc.Refine.spec3.ham 3) (c' : Config) :
+    PT.law (clusterKT (1 / 2) (fun b => decide (1 + 3 ≤ b)) Qmc.Refine.exB) c' =
+      clusterK (ClusterFamily.ofModel (fun o => decide (1 + 3 ≤ o.bond)) Qmc.Refine.spec3.ham 3 5 hV)
+        Qmc.Refine.exB c' :=
+  clusterUpdate_law_eq_kernel_partial _ _ 3 5 hV _ Qmc.Kernel.CutExample.exB_mem
+    Qmc.Kernel.CutExample.exB_good.tagCanon (by decide +kernel) c'
+
+/-- **the whole step of the executable model on a concrete system, no hypothesis left**: `spec3`, two
+slots, β = 3/2 — the idealised law of `isingTimestep` leaves the true SSE measure invariant -/
+example : Invariant (sseCutOn Qmc.Refine.spec3.ham (3 / 2) (cfgSpace Qmc.Refine.spec3.ham 3 2))
+    (lawK (cfgSpace Qmc.Refine.spec3.ham 3 2)
+      (stepCfgT Qmc.Refine.spec3.ham none
+        (Sampler.IsingSampler.new Qmc.Refine.spec3 2 [false, false, false]).frozenBond (3 / 2) 2)) :=
+  isingStep_law_invariant_partial (Sampler.IsingSampler.new Qmc.Refine.spec3 2 [false, false, false])
+    Qmc.Refine.spec3_valid (by norm_num [Qmc.Refine.spec3, Sampler.IsingSampler.new])
+    (by rw [show (Sampler.IsingSampler.new Qmc.Refine.spec3 2 [false, false, false]).spec = Qmc.Refine.spec3
+      from rfl, Qmc.Kernel.CutExample.spec3_nbonds]; norm_num)
+    (3 / 2) (by norm_num) 2 (htrav_of_enum _ 3 2 spec3_trav2)
+
+/-! the permutation hypothesis of `clusterKernel_eq_components_partial` on a skeleton with one σx -/
+
+def sk1 : Skel := [some ⟨[0], 1, true⟩]
+def fr0 : SkOp → Bool := fun _ => false
+
+theorem free_sk1 (r : Nat) : ComponentFreeSk fr0 sk1 r := by
+  intro x _ _ hfr
+  simp [fr0] at hfr
+
+theorem roots_sk1 : componentRoots fr0 sk1 = [0] := by
+  unfold componentRoots
+  have h1 : (legGraph sk1).nlegs = 2 := by decide +kernel
+  have h2 : (compLab sk1)[0]! = 0 := by decide +kernel
+  have h3 : (compLab sk1)[1]! = 0 := by decide +kernel
+  rw [h1]
+  simp [List.range_succ, h2, h3, free_sk1]
+
+theorem reps_sk1 : freeReps fr0 sk1 = [0] := by decide +kernel
+
+example : (modelFlips fr0 sk1).Perm (componentFlips fr0 sk1) := by
+  have he : (legGraph sk1).hasEdge = true := by decide +kernel
+  have hw : (traverse sk1).whole = false := by decide +kernel
+  have h0 : (compLab sk1)[0]! = 0 := by decide +kernel
+  unfold modelFlips componentFlips
+  rw [if_pos he, roots_sk1, reps_sk1, hw]
+  simp only [List.map_cons, List.map_nil, clusterLegs_false, h0]
+  exact List.Perm.refl _
+
 
 end Example
 
